@@ -208,7 +208,7 @@ func runLayoutLine(items []vlib.Sx) (impl, fail, sig string, err error) {
 }
 
 func genLayout(run *vlib.Run, r *vlib.Rand, tier string) {
-	n := vlib.Count(tier, 150, 3000)
+	n := vlib.Count(tier, 400, 4000)
 	for i := 0; i < n; i++ {
 		gd := layoutGdef(r)
 		mk := func(kinds []string) []*Lookup {
